@@ -246,7 +246,7 @@ def r5_recovery(ctx):
             if c2 is not None:
                 for p2 in sym.walk(c2):
                     r2 = ret_of(p2)
-                    if r2 is not None and r2[0] == "bin" and r2[1] == "Eq" and (upvar_of(c2, r2[2]) == "quote" or upvar_of(c2, r2[3]) == "quote"):
+                    if r2 is not None and r2[0] == "bin" and r2[1] == "Eq" and (upvar_of(c2, r2[2]) is not None or upvar_of(c2, r2[3]) is not None):
                         same = True
             ctx.ob("R5", "skip_eq_value:matching-quote", same, "the skipped value ends at the first byte equal to the quote that opened it (a value may contain the other quote character), as in IterState::next", config=cfg)
             ctx.ob("R5", "skip_eq_value:resume-after-quote", quote_rets >= 1 and bad == 0,
